@@ -8,7 +8,7 @@ import os
 from harness import common, trees, treeimpl, updimpl
 from harness.common import cps, uncps
 
-BRIDGE = ('Gemato.Bridge.Profile', 'Gemato.Bridge.SrcUpdate', 'Gemato.Bridge.SrcLoader', 'Gemato.Bridge.SrcText')
+BRIDGE = ('Gemato.Bridge.Profile', 'Gemato.Bridge.SrcUpdate', 'Gemato.Bridge.SrcLoader', 'Gemato.Bridge.SrcText', 'Gemato.Bridge.SrcProfile', 'Gemato.Bridge.SrcCli')
 PROPS = ['Gemato.Props.C19']
 PROFILES = ['default', 'ebuild', 'old-ebuild']
 ALPHA = ['', 'eclass', 'licenses', 'metadata', 'profiles', 'dtd', 'glsa', 'md5-cache', 'news', 'xml-schema', 'cat', 'pkg', 'files',
